@@ -19,7 +19,6 @@ package rules
 import (
 	"errors"
 	"net/http"
-	"net/url"
 	"slices"
 	"strings"
 
@@ -119,17 +118,13 @@ func (m *pathParamMatcher) Matches(request *heimdall.Request, keys, values []str
 	value := values[idx]
 	// URL.RawPath is set only if the original url contains url encoded parts
 	if len(request.URL.RawPath) != 0 {
-		switch m.slashHandling {
-		case config.EncodedSlashesOff:
-			if containsEncodedSlash(request.URL.RawPath) {
-				return errorchain.NewWithMessage(ErrRequestPathMismatch,
-					"request path contains encoded slashes which are not allowed")
-			}
-		case config.EncodedSlashesOn:
-			value, _ = url.PathUnescape(value)
-		default:
-			value = unescape(value, m.slashHandling)
+		if m.slashHandling == config.EncodedSlashesOff && containsEncodedSlash(request.URL.RawPath) {
+			return errorchain.NewWithMessage(ErrRequestPathMismatch,
+				"request path contains encoded slashes which are not allowed")
 		}
+
+		// the conditions apply to the decoded value, as it is exposed to the pipeline
+		value = unescape(value, m.slashHandling)
 	}
 
 	if !m.match(value) {
